@@ -87,7 +87,15 @@ void harness_request_line(void)
 #else
 	static uint8_t line[8] = "GET /x\r\n";
 #endif
+#ifdef ALLOC_FAIL
+	/* C15: the ALLOC_FAIL-th allocation attempt made while the start line is handled (websocket peer, its routing table, ...) fails */
+	verif_alloc_calls = 0; verif_alloc_failed = 0; verif_fail_at = ALLOC_FAIL;
+#endif
 	enum bs_read_callback_return rc = read_start_line(c, line, 8);
+#ifdef ALLOC_FAIL
+	verif_fail_at = -1;
+	if (verif_alloc_failed) REACH("allocation_failed");
+#endif
 	if (rc == BS_CLOSED) {
 		CHECK(conn_closed, "C13.refused_exchange_closes_the_connection");
 		/* "answered with an HTTP error status or closed": an answer is optional, but if there is one it is a single error status */
